@@ -14,6 +14,7 @@ import (
 	"strings"
 
 	"github.com/julienschmidt/httprouter"
+	"github.com/spf13/cast"
 	"github.com/spf13/viper"
 )
 
@@ -201,6 +202,16 @@ func (hc *Coordinator) configEvaluatorDetail(w http.ResponseWriter, r *http.Requ
 	}
 }
 
+// notifierExtras returns the extras table of the notifier module with the given configuration root. It is read from the
+// module's own table, not through the key "<root>.extras": viper resolves a dotted key by the longest matching prefix,
+// so with modules named "a" and "a.extras" that key is the second MODULE, whose whole table - password included - would
+// be shown as the extras of "a".
+func notifierExtras(configRoot string) map[string]string {
+	name := strings.ToLower(strings.TrimPrefix(configRoot, "notifier."))
+	module, _ := viper.GetStringMap("notifier")[name].(map[string]interface{})
+	return cast.ToStringMapString(module["extras"])
+}
+
 func (hc *Coordinator) configNotifierHTTP(w http.ResponseWriter, r *http.Request, configRoot string) {
 	requestInfo := makeRequestInfo(r)
 	hc.writeResponse(w, r, http.StatusOK, httpResponseConfigModuleDetail{
@@ -219,7 +230,7 @@ func (hc *Coordinator) configNotifierHTTP(w http.ResponseWriter, r *http.Request
 			MethodClose:    viper.GetString(configRoot + ".method-close"),
 			TemplateOpen:   viper.GetString(configRoot + ".template-open"),
 			TemplateClose:  viper.GetString(configRoot + ".template-close"),
-			Extras:         viper.GetStringMapString(configRoot + ".extras"),
+			Extras:         notifierExtras(configRoot),
 			SendClose:      viper.GetBool(configRoot + ".send-close"),
 			ExtraCa:        viper.GetString(configRoot + ".extra-ca"),
 			NoVerify:       viper.GetString(configRoot + ".noverify"),
@@ -242,7 +253,7 @@ func (hc *Coordinator) configNotifierSlack(w http.ResponseWriter, r *http.Reques
 			Keepalive:      viper.GetInt(configRoot + ".keepalive"),
 			TemplateOpen:   viper.GetString(configRoot + ".template-open"),
 			TemplateClose:  viper.GetString(configRoot + ".template-close"),
-			Extras:         viper.GetStringMapString(configRoot + ".extras"),
+			Extras:         notifierExtras(configRoot),
 			SendClose:      viper.GetBool(configRoot + ".send-close"),
 			Channel:        viper.GetString(configRoot + ".channel"),
 			Username:       viper.GetString(configRoot + ".username"),
@@ -265,7 +276,7 @@ func (hc *Coordinator) configNotifierEmail(w http.ResponseWriter, r *http.Reques
 			Threshold:      viper.GetInt(configRoot + ".threshold"),
 			TemplateOpen:   viper.GetString(configRoot + ".template-open"),
 			TemplateClose:  viper.GetString(configRoot + ".template-close"),
-			Extras:         viper.GetStringMapString(configRoot + ".extras"),
+			Extras:         notifierExtras(configRoot),
 			SendClose:      viper.GetBool(configRoot + ".send-close"),
 			Server:         viper.GetString(configRoot + ".server"),
 			Port:           viper.GetInt(configRoot + ".port"),
@@ -292,7 +303,7 @@ func (hc *Coordinator) configNotifierNull(w http.ResponseWriter, r *http.Request
 			Threshold:      viper.GetInt(configRoot + ".threshold"),
 			TemplateOpen:   viper.GetString(configRoot + ".template-open"),
 			TemplateClose:  viper.GetString(configRoot + ".template-close"),
-			Extras:         viper.GetStringMapString(configRoot + ".extras"),
+			Extras:         notifierExtras(configRoot),
 			SendClose:      viper.GetBool(configRoot + ".send-close"),
 		},
 		Request: requestInfo,
